@@ -640,6 +640,9 @@ def prov(body, x, depth=0, _seen=None, via=(), suffix=()):
     defs = body.defs().get(l, [])
     if not defs:
         return {Root("undef", "_%d" % l, fields, tuple(via), None)}
+    if sum(1 for d in defs if not d[3]["p"]) > 1 and "φ" not in via:
+        # several reaching definitions (mutable variable): mark the slice as merged
+        via = tuple(via) + ("φ",)
     for d in defs:
         kind, bb, idx, dplace, payload = d
         dfields = tuple(proj_fields(dplace))
@@ -665,6 +668,10 @@ def prov(body, x, depth=0, _seen=None, via=(), suffix=()):
             cd = callee_def(t)
             if cd is None:
                 out.add(Root("call", "<indirect>", rest, tuple(via), bb))
+                continue
+            if cd == "std::ops::Try::branch" and len(rest) >= 2 and rest[0] == "#Continue" and rest[1] == "0":
+                # `x?`: the Continue payload is the Ok/Some payload of x
+                out |= prov(body, t["args"][0], depth + 1, _seen, tuple(via) + ("?",), rest[2:])
                 continue
             if names & _transparent() and t["args"]:
                 short = cd.rsplit("::", 1)[-1]
